@@ -103,7 +103,7 @@ fn generated_c06(stakes: &[u64], tag: &str, stride: usize) -> Vec<PoolSlotSys> {
         if assign[0] == 0 {
             continue;
         }
-        for mode in ["parent-notar-cert", "parent-by-votes", "parent-fast-final-cert"] {
+        for mode in ["parent-notar-cert", "parent-by-votes", "parent-fast-final-cert", "two-parents-certified-one-after-the-other"] {
             idx += 1;
             if idx % stride != 0 {
                 continue;
@@ -118,11 +118,21 @@ fn generated_c06(stakes: &[u64], tag: &str, stride: usize) -> Vec<PoolSlotSys> {
                 }
             }
             ops.push(block(2, 0, 1, 0));
-            ops.push(block(2, 1, 1, 0));
+            if mode == "two-parents-certified-one-after-the-other" {
+                // the parent slot was equivocated: child a sits on block (1,a), child b on block (1,b);
+                // (1,a) gets a notarization certificate, (1,b) a notar-fallback certificate
+                ops.push(block(2, 1, 1, 1));
+                ops.push(cert(CK::Notar, 1, 0, &q60, &[]));
+                let (first, rest) = q60.split_at(1);
+                ops.push(cert(CK::NotarFb, 1, 1, first, rest));
+            } else {
+                ops.push(block(2, 1, 1, 0));
+            }
             match mode {
                 "parent-notar-cert" => ops.push(cert(CK::Notar, 1, 0, &q60, &[])),
                 "parent-by-votes" => ops.extend(votes(N, 1, 0, &q60)),
-                _ => ops.push(cert(CK::FastFinal, 1, 0, &q80, &[])),
+                "parent-fast-final-cert" => ops.push(cert(CK::FastFinal, 1, 0, &q80, &[])),
+                _ => {}
             }
             let name = format!("gen-{tag}-{}-{mode}", assign.iter().map(|a| ["-", "a", "b", "s"][*a]).collect::<String>());
             out.push(PoolSlotSys::new(&name, epoch.clone(), 0, ops, "C06"));
